@@ -817,4 +817,394 @@ func sortAstPlugin(ctxs map[string]*PkgCtx, outLean string) {
 	b.WriteString("/-- the program: callee lookup by Go function name -/\ndef prog : String → Option Fn := lookupFn fns\n")
 	b.WriteString("\nend Got.Generated.AstSortxSort\n")
 	writeIfChanged(filepath.Join(outLean, "AstSortxSort.lean"), []byte(b.String()))
+	sortUniquePlugin(decls, info, outLean)
+}
+
+// ---------------------------------------------------------------------------------------------------------------
+// sortx.UniqueInt / sortx.UniqueString -> MiniGoSlice (/verif/lean/Got/Model/MiniGoSlice.lean), written to
+// Got/Generated/AstSortxUnique.lean.  Fragment: `func F(a []T) []T` with T = int or string (elements are only compared
+// with == / !=), int locals, `len(a)`, `+ -`, comparisons, `a[e1] ==/!= a[e2]`, `a[e1] = a[e2]`, `a = a[:e]`, if/else,
+// three-clause for, `return a`.
+
+var sortUniqueTargets = []string{"UniqueInt", "UniqueString"}
+
+type uniqTr struct {
+	info  *types.Info
+	slice types.Object
+	ints  map[types.Object]int
+	next  int
+	err   string
+}
+
+func (t *uniqTr) fail(format string, a ...interface{}) {
+	if t.err == "" {
+		t.err = fmt.Sprintf(format, a...)
+	}
+}
+
+func (t *uniqTr) obj(id *ast.Ident) types.Object {
+	if o := t.info.Defs[id]; o != nil {
+		return o
+	}
+	return t.info.Uses[id]
+}
+
+func (t *uniqTr) isSlice(e ast.Expr) bool {
+	for {
+		p, ok := e.(*ast.ParenExpr)
+		if !ok {
+			break
+		}
+		e = p.X
+	}
+	id, ok := e.(*ast.Ident)
+	return ok && t.slice != nil && t.obj(id) == t.slice
+}
+
+func (t *uniqTr) intType(e ast.Expr) bool {
+	tv, ok := t.info.Types[e]
+	return ok && tv.Type != nil && sortIsSignedInt(tv.Type)
+}
+
+func (t *uniqTr) expr(e ast.Expr) string {
+	if tv, ok := t.info.Types[e]; ok && tv.Value != nil && tv.Value.Kind() == constant.Int && sortIsSignedInt(tv.Type) {
+		return "(.lit " + leanInt(tv.Value.ExactString()) + ")"
+	}
+	switch x := e.(type) {
+	case *ast.ParenExpr:
+		return t.expr(x.X)
+	case *ast.Ident:
+		if k, ok := t.ints[t.obj(x)]; ok {
+			return fmt.Sprintf("(.var %d)", k)
+		}
+		t.fail("identifier %s is not an int variable of the function", x.Name)
+	case *ast.BinaryExpr:
+		if !t.intType(x.X) || !t.intType(x.Y) {
+			t.fail("operands that are not ints")
+			break
+		}
+		switch x.Op {
+		case token.ADD:
+			return "(.add " + t.expr(x.X) + " " + t.expr(x.Y) + ")"
+		case token.SUB:
+			return "(.sub " + t.expr(x.X) + " " + t.expr(x.Y) + ")"
+		}
+		t.fail("binary operator %s", x.Op)
+	case *ast.CallExpr:
+		if id, ok := x.Fun.(*ast.Ident); ok && len(x.Args) == 1 && t.isSlice(x.Args[0]) {
+			if b, isB := t.info.Uses[id].(*types.Builtin); isB && b.Name() == "len" {
+				return ".len"
+			}
+		}
+		t.fail("call in an integer expression that is not len(a)")
+	default:
+		t.fail("expression %T", e)
+	}
+	return "(.lit 0)"
+}
+
+// elem recognises a[e] on the slice parameter and returns the index term
+func (t *uniqTr) elem(e ast.Expr) (string, bool) {
+	for {
+		p, ok := e.(*ast.ParenExpr)
+		if !ok {
+			break
+		}
+		e = p.X
+	}
+	ix, ok := e.(*ast.IndexExpr)
+	if !ok || !t.isSlice(ix.X) || !t.intType(ix.Index) {
+		return "", false
+	}
+	return t.expr(ix.Index), true
+}
+
+func (t *uniqTr) cond(e ast.Expr) string {
+	switch x := e.(type) {
+	case *ast.ParenExpr:
+		return t.cond(x.X)
+	case *ast.UnaryExpr:
+		if x.Op == token.NOT {
+			return "(.not " + t.cond(x.X) + ")"
+		}
+		t.fail("unary operator %s in a condition", x.Op)
+	case *ast.BinaryExpr:
+		switch x.Op {
+		case token.LOR:
+			return "(.or " + t.cond(x.X) + " " + t.cond(x.Y) + ")"
+		case token.LAND:
+			return "(.and " + t.cond(x.X) + " " + t.cond(x.Y) + ")"
+		case token.EQL, token.NEQ:
+			if i, ok := t.elem(x.X); ok {
+				if j, ok2 := t.elem(x.Y); ok2 {
+					if x.Op == token.EQL {
+						return "(.elemEq " + i + " " + j + ")"
+					}
+					return "(.elemNe " + i + " " + j + ")"
+				}
+				t.fail("comparison of an element with something that is not an element")
+				break
+			}
+			fallthrough
+		case token.LEQ, token.LSS, token.GEQ, token.GTR:
+			if !t.intType(x.X) || !t.intType(x.Y) {
+				t.fail("comparison of operands that are not signed ints / elements")
+				break
+			}
+			a, b := t.expr(x.X), t.expr(x.Y)
+			switch x.Op {
+			case token.EQL:
+				return "(.eq " + a + " " + b + ")"
+			case token.NEQ:
+				return "(.ne " + a + " " + b + ")"
+			case token.LEQ:
+				return "(.le " + a + " " + b + ")"
+			case token.LSS:
+				return "(.lt " + a + " " + b + ")"
+			case token.GEQ:
+				return "(.le " + b + " " + a + ")"
+			default:
+				return "(.lt " + b + " " + a + ")"
+			}
+		default:
+			t.fail("binary operator %s in a condition", x.Op)
+		}
+	default:
+		t.fail("condition %T", e)
+	}
+	return ".tt"
+}
+
+func (t *uniqTr) block(list []ast.Stmt, ind string) string {
+	var parts []string
+	for _, s := range list {
+		for _, p := range t.stmt(s, ind+"  ") {
+			parts = append(parts, ind+"  "+p)
+		}
+	}
+	if len(parts) == 0 {
+		return "[]"
+	}
+	return "[\n" + strings.Join(parts, ",\n") + "\n" + ind + "]"
+}
+
+func (t *uniqTr) declare(id *ast.Ident) int {
+	o := t.info.Defs[id]
+	if o == nil || id.Name == "_" {
+		t.fail("declaration of %s", id.Name)
+		return 0
+	}
+	t.ints[o] = t.next
+	t.next++
+	return t.ints[o]
+}
+
+func (t *uniqTr) stmt(s ast.Stmt, ind string) []string {
+	one := func(x string) []string { return []string{x} }
+	switch x := s.(type) {
+	case *ast.EmptyStmt:
+		return nil
+	case *ast.ReturnStmt:
+		if len(x.Results) == 1 && t.isSlice(x.Results[0]) {
+			return one(".retSlice")
+		}
+		t.fail("return of something that is not the slice parameter")
+	case *ast.IncDecStmt:
+		if id, ok := x.X.(*ast.Ident); ok {
+			if k, ok := t.ints[t.obj(id)]; ok {
+				op := "add"
+				if x.Tok == token.DEC {
+					op = "sub"
+				}
+				return one(fmt.Sprintf(".set %d (.%s (.var %d) (.lit 1))", k, op, k))
+			}
+		}
+		t.fail("++/-- of something that is not an int variable")
+	case *ast.DeclStmt:
+		gd, ok := x.Decl.(*ast.GenDecl)
+		if !ok || gd.Tok != token.VAR || len(gd.Specs) != 1 {
+			t.fail("declaration outside the fragment")
+			break
+		}
+		vs := gd.Specs[0].(*ast.ValueSpec)
+		if len(vs.Names) != 1 || len(vs.Values) > 1 {
+			t.fail("var declaration of several names")
+			break
+		}
+		o := t.info.Defs[vs.Names[0]]
+		if o == nil || !sortIsSignedInt(o.Type()) {
+			t.fail("variable %s is not an int", vs.Names[0].Name)
+			break
+		}
+		v := "(.lit 0)"
+		if len(vs.Values) == 1 {
+			v = t.expr(vs.Values[0])
+		}
+		return one(fmt.Sprintf(".set %d %s", t.declare(vs.Names[0]), v))
+	case *ast.AssignStmt:
+		if len(x.Lhs) != 1 || len(x.Rhs) != 1 {
+			t.fail("assignment with %d targets", len(x.Lhs))
+			break
+		}
+		// a[e1] = a[e2]
+		if i, ok := t.elem(x.Lhs[0]); ok && x.Tok == token.ASSIGN {
+			if j, ok2 := t.elem(x.Rhs[0]); ok2 {
+				return one(".store " + i + " " + j)
+			}
+			t.fail("store of something that is not an element of the slice")
+			break
+		}
+		// a = a[:e]
+		if t.isSlice(x.Lhs[0]) && x.Tok == token.ASSIGN {
+			if se, ok := x.Rhs[0].(*ast.SliceExpr); ok && t.isSlice(se.X) && se.Low == nil && se.High != nil && !se.Slice3 && t.intType(se.High) {
+				return one(".reslice " + t.expr(se.High))
+			}
+			t.fail("assignment to the slice that is not a = a[:e]")
+			break
+		}
+		id, ok := x.Lhs[0].(*ast.Ident)
+		if !ok || !t.intType(x.Rhs[0]) {
+			t.fail("assignment outside the fragment")
+			break
+		}
+		switch x.Tok {
+		case token.DEFINE:
+			v := t.expr(x.Rhs[0])
+			if t.info.Defs[id] != nil {
+				return one(fmt.Sprintf(".set %d %s", t.declare(id), v))
+			}
+			t.fail("redeclaration of %s", id.Name)
+		case token.ASSIGN, token.ADD_ASSIGN, token.SUB_ASSIGN:
+			k, ok := t.ints[t.obj(id)]
+			if !ok {
+				t.fail("assignment to %s, which is not an int variable", id.Name)
+				break
+			}
+			v := t.expr(x.Rhs[0])
+			if x.Tok == token.ADD_ASSIGN {
+				v = fmt.Sprintf("(.add (.var %d) %s)", k, v)
+			} else if x.Tok == token.SUB_ASSIGN {
+				v = fmt.Sprintf("(.sub (.var %d) %s)", k, v)
+			}
+			return one(fmt.Sprintf(".set %d %s", k, v))
+		default:
+			t.fail("assignment operator %s", x.Tok)
+		}
+	case *ast.IfStmt:
+		if x.Init != nil {
+			t.fail("if with an init statement")
+			break
+		}
+		c := t.cond(x.Cond)
+		th := t.block(x.Body.List, ind)
+		el := "[]"
+		switch e := x.Else.(type) {
+		case nil:
+		case *ast.BlockStmt:
+			el = t.block(e.List, ind)
+		case *ast.IfStmt:
+			el = t.block([]ast.Stmt{e}, ind)
+		default:
+			t.fail("else branch %T", e)
+		}
+		return one(".ite " + c + " " + th + " " + el)
+	case *ast.ForStmt:
+		var out []string
+		if x.Init != nil {
+			out = append(out, t.stmt(x.Init, ind)...)
+		}
+		c := ".tt"
+		if x.Cond != nil {
+			c = t.cond(x.Cond)
+		}
+		body := t.block(x.Body.List, ind)
+		post := "[]"
+		if x.Post != nil {
+			post = t.block([]ast.Stmt{x.Post}, ind)
+		}
+		return append(out, ".loop "+c+" "+body+" "+post)
+	default:
+		t.fail("statement %T", s)
+	}
+	return one(".retSlice")
+}
+
+func uniqContainsForbidden(b *ast.BlockStmt) string {
+	found := ""
+	ast.Inspect(b, func(n ast.Node) bool {
+		switch n.(type) {
+		case *ast.LabeledStmt, *ast.FuncLit, *ast.GoStmt, *ast.DeferStmt, *ast.SwitchStmt, *ast.TypeSwitchStmt,
+			*ast.SelectStmt, *ast.RangeStmt, *ast.BranchStmt:
+			found = fmt.Sprintf("%T", n)
+		}
+		return found == ""
+	})
+	return found
+}
+
+func translateUniqueFn(name string, fd *ast.FuncDecl, info *types.Info) string {
+	t := &uniqTr{info: info, ints: map[types.Object]int{}}
+	elemOK := func(ty types.Type) bool { // []int or []string
+		sl, ok := ty.Underlying().(*types.Slice)
+		if !ok {
+			return false
+		}
+		b, ok := sl.Elem().Underlying().(*types.Basic)
+		return ok && (b.Kind() == types.Int || b.Kind() == types.String)
+	}
+	switch {
+	case fd == nil || info == nil:
+		t.err = "function not found"
+	case fd.Recv != nil || fd.Type.TypeParams != nil:
+		t.err = "method or generic function"
+	case len(fd.Type.Params.List) != 1 || len(fd.Type.Params.List[0].Names) != 1:
+		t.err = "parameter list is not one slice"
+	case fd.Type.Results == nil || len(fd.Type.Results.List) != 1 || len(fd.Type.Results.List[0].Names) != 0:
+		t.err = "result list is not one unnamed slice"
+	default:
+		pn := fd.Type.Params.List[0].Names[0]
+		po := info.Defs[pn]
+		rt, rok := info.Types[fd.Type.Results.List[0].Type]
+		if po == nil || !elemOK(po.Type()) || !rok || !types.Identical(rt.Type, po.Type()) {
+			t.err = "parameter/result is not one []int or []string"
+			break
+		}
+		t.slice = po
+		if f := uniqContainsForbidden(fd.Body); f != "" {
+			t.fail("%s", f)
+		}
+	}
+	body := "[]"
+	if t.err == "" {
+		body = t.block(fd.Body.List, "    ")
+	}
+	note := "ok"
+	if t.err != "" {
+		body = "[]"
+		note = "outside the MiniGoSlice fragment: " + t.err
+	}
+	lean := strings.ToLower(name[:1]) + name[1:]
+	var b strings.Builder
+	fmt.Fprintf(&b, "def %sNote : String := %q\n\n", lean, note)
+	fmt.Fprintf(&b, "def %s : Fn :=\n  { name := %q\n    body := %s }\n", lean, name, body)
+	return b.String()
+}
+
+func sortUniquePlugin(decls map[string]*ast.FuncDecl, info *types.Info, outLean string) {
+	var b strings.Builder
+	b.WriteString("import Got.Model.MiniGoSlice\n")
+	b.WriteString("/- GENERATED by /verif/tools/srcfacts (minigo_sort.go) from the repository's current working tree on every run.\n")
+	b.WriteString("   Do not edit.  MiniGoSlice translations (Got/Model/MiniGoSlice.lean) of sortx.UniqueInt / sortx.UniqueString;\n")
+	b.WriteString("   a construct outside the fragment makes the body empty and is named in the `…Note` string.\n")
+	b.WriteString("   Int variables are numbered in order of declaration; the slice parameter is implicit. -/\n")
+	b.WriteString("namespace Got.Generated.AstSortxUnique\nopen Got.Model.MiniGoSlice\n\n")
+	var notes []string
+	for _, n := range sortUniqueTargets {
+		b.WriteString(translateUniqueFn(n, decls[n], info))
+		b.WriteString("\n")
+		notes = append(notes, strings.ToLower(n[:1])+n[1:]+"Note")
+	}
+	b.WriteString("def notes : List String := [" + strings.Join(notes, ", ") + "]\n")
+	b.WriteString("\nend Got.Generated.AstSortxUnique\n")
+	writeIfChanged(filepath.Join(outLean, "AstSortxUnique.lean"), []byte(b.String()))
 }
